@@ -21,6 +21,9 @@ class NoReplay(Exception):
     pass
 
 
+_REPLAYS = [0]
+
+
 # Interface-typed inputs whose model value has no concrete dynamic type (the proof treats the methods as
 # uninterpreted): the replay tries each of these real values; a clause that evaluates to false for any of them
 # on the real code is a genuine counterexample.
@@ -58,14 +61,17 @@ def find_model(ver, ob, extra_sizes=()):
 
 
 def _find_model(ver, asserts, extra_sizes=()):
+    t_end = time.time() + float(os.environ.get("GOVC_MODEL_BUDGET", "45"))
     sizes = []
     for name, v, t in ver.input_vals:
         size_terms(v, t, sizes)
     sizes += list(extra_sizes)
     last = None
     for bound in (8, 64, 4096, 1 << 20, 1 << 25, None):
+        if time.time() > t_end:
+            return None, "model search budget exhausted (last: %s)" % last
         s = z3.Solver()
-        s.set("timeout", 20000)
+        s.set("timeout", 10000)
         for h in asserts:
             s.add(h)
         if bound is not None:
@@ -74,9 +80,11 @@ def _find_model(ver, asserts, extra_sizes=()):
         r = s.check()
         if r == z3.unknown:
             # lambda terms (bulk copies) make the array theory report 'incomplete' on some seeds: retry
-            for seed in range(1, 6):
+            for seed in range(1, 4):
+                if time.time() > t_end:
+                    break
                 s2 = z3.SolverFor("AUFBV") if seed == 1 else z3.Solver()
-                s2.set("timeout", 20000)
+                s2.set("timeout", 10000)
                 if seed > 1:
                     s2.set("random_seed", seed)
                 for a in s.assertions():
@@ -531,6 +539,10 @@ def handle_failure(pid, job, repo, tier):
            "solver": job.get("result", {}).get("solver"), "solver_output": job.get("result", {}).get("detail") or job.get("detail"),
            "race": job.get("result", {}).get("race"), "reproduced": False, "verdict": "no model", "test_source": None}
     ver, ob = job.get("verifier"), job.get("ob")
+    _REPLAYS[0] += 1
+    if _REPLAYS[0] > int(os.environ.get("GOVC_MAX_REPLAYS", "4")):
+        rec["verdict"] = "failed obligation recorded; counterexample search skipped (replay budget of this run spent on earlier failures)"
+        ver = None
     if ver is not None and ob is not None:
         try:
             model, bound = find_model(ver, ob)
